@@ -477,7 +477,7 @@ func TestVerifC05Directed(t *testing.T) {
 type c05Rpt struct {
 	Algo       string `json:"algo"`
 	InspectAll bool   `json:"inspect_all"`
-	Status     int    `json:"status"`     // 0 received, 1 forwarded, 2 delivered, 3 deleted
+	Status     int    `json:"status"`     // 0 received, 1 forwarded, 2 delivered, 3 deleted, 4 = not a status report at all: an administrative record of an unknown type
 	AboutHeld  bool   `json:"about_held"` // the report refers to a bundle this node carries (else to an unknown one)
 	PeerEarly  bool   `json:"peer_early"` // a relay is connected when the report arrives
 	ToNode     bool   `json:"to_node"`    // the report is addressed to this node (else in transit)
@@ -486,13 +486,13 @@ type c05Rpt struct {
 
 func TestVerifC05ReportsInTransit(t *testing.T) {
 	u := vk.Unit{Property: "C05", Name: "c05.reports-in-transit",
-		Rule: "exhaustive product: algorithm (epidemic, spray, prophet, dtlsr) x node option 'inspect all bundles' on/off x status report kind (received / forwarded / delivered / deleted) x about a bundle the node carries / an unknown one x a relay connected when the report arrives or later x report in transit / addressed to this node x restart; a data bundle X is accepted and waits; a status-report bundle R about X arrives from a peer; relays appear. Oracle (the report is an accepted bundle like any other): R in transit is pending until a transmission of it succeeded and - under epidemic routing - is offered to every relay that appears; X stays pending too unless the node inspects all bundles and R says X was delivered (the node then drops X by design); every case non-trivial; distinct by tuple"}
+		Rule: "exhaustive product: algorithm (epidemic, spray, prophet, dtlsr) x node option 'inspect all bundles' on/off x status report kind (received / forwarded / delivered / deleted, or an administrative record of an unknown type) x about a bundle the node carries / an unknown one x a relay connected when the report arrives or later x report in transit / addressed to this node x restart; a data bundle X is accepted and waits; a status-report bundle R about X arrives from a peer; relays appear. Oracle (the report is an accepted bundle like any other): R in transit is pending until a transmission of it succeeded and - under epidemic routing - is offered to every relay that appears; X stays pending too unless the node inspects all bundles and R says X was delivered (the node then drops X by design); every case non-trivial; distinct by tuple"}
 	vk.Enumerate(t, u, true, func(yield func(c05Rpt) bool) {
 		i := 0
 		bools := []bool{false, true}
 		for _, algo := range []string{"epidemic", "spray", "prophet", "dtlsr"} {
 			for _, ia := range bools {
-				for st := 0; st <= 3; st++ {
+				for st := 0; st <= 4; st++ {
 					for _, held := range bools {
 						for _, early := range bools {
 							for _, toNode := range bools {
@@ -535,10 +535,16 @@ func TestVerifC05ReportsInTransit(t *testing.T) {
 			s.logf("relay p1 appears")
 			s.addPeer("p1")
 		}
-		sr := bpv7.NewStatusReport(about, bpv7.StatusInformationPos(cs.Status), bpv7.NoInformation, bpv7.DtnTimeNow())
-		ar, err := bpv7.AdministrativeRecordToCbor(sr)
-		if err != nil {
-			s.failf("c05.harness", "record: %v", err)
+		var ar bpv7.CanonicalBlock
+		if cs.Status <= 3 {
+			sr := bpv7.NewStatusReport(about, bpv7.StatusInformationPos(cs.Status), bpv7.NoInformation, bpv7.DtnTimeNow())
+			var err error
+			if ar, err = bpv7.AdministrativeRecordToCbor(sr); err != nil {
+				s.failf("c05.harness", "record: %v", err)
+			}
+		} else {
+			// a record this implementation cannot interpret: [7, 0]. To a relay it is payload like any other.
+			ar = bpv7.NewCanonicalBlock(1, 0, bpv7.NewPayloadBlock([]byte{0x82, 0x07, 0x00}))
 		}
 		rdst := "dtn://origin/reports"
 		if cs.ToNode {
